@@ -10,6 +10,7 @@ configured build must be the term written by the default build:
   D2  the corpus instantiates under every configuration
 """
 import importlib
+import re
 from laneflow import term as tm
 from laneflow import poly as P
 from laneflow import runner as R
@@ -144,6 +145,30 @@ def pair_case(k, origin, cname, defines, std):
     return R.Case(name, [k, kc], judge)
 
 
+EXTRA_MODULES = ('c11', 'c05', 'c06', 'c18', 'c19', 'c13', 'c04', 'c09', 'c08')
+EXTRA_CONFIGS_QUICK = ('CXX98@gccview', 'CXX98', 'CTOR_INIT')
+
+
+def extra_corpus(tier):
+    """default-configuration kernels of the remaining rule modules (their only define is GLM_ENABLE_EXPERIMENTAL): compared under the language-level
+    configurations as well, where the pre-C++11 arms of gtc / gtx / ext sources live"""
+    out = []
+    seen = set()
+    for prop in EXTRA_MODULES:
+        mod = importlib.import_module('rules.' + prop)
+        for c in mod.cases('quick'):
+            if c.canary:
+                continue
+            for k in c.kernels:
+                if set(k.cfg.defines) - {'GLM_ENABLE_EXPERIMENTAL'} or k.cfg.flags or k.pre or getattr(k.cfg, 'peel', 0) or k.cfg.noinline or k.name in seen:
+                    continue
+                if re.search(r'glm::mat<[34], [34], \w+, glm::\w+>\(\*q\)', k.source()):
+                    continue      # mat3(q) / mat4(q) use qua's explicit conversion operators, which only exist with GLM_HAS_EXPLICIT_CONVERSION_OPERATORS (C++11): not part of the pre-C++11 API
+                seen.add(k.name)
+                out.append((k, prop.upper()))
+    return out
+
+
 def cases(tier):
     cs = []
     corp = corpus(tier)
@@ -153,6 +178,28 @@ def cases(tier):
             if 'QUAT_DATA_WXYZ' in ' '.join(defines) and ('glm::qua' in k.source()):
                 continue      # layout-changing for quaternions: compared by component name under C04
             cs.append(pair_case(k, origin, cname, defines, std))
+    if tier == 'quick':
+        # every shape conversion / constructor of float matrices under the g++ view of the pre-C++11 level: each type_matCxR.inl has a second,
+        # assignment-style arm for !GLM_HAS_INITIALIZER_LISTS that only this configuration compiles
+        have = {k.name for k, _ in corp}
+        mod = importlib.import_module('rules.c02')
+        for c in mod.cases('quick'):
+            if c.canary:
+                continue
+            for k in c.kernels:
+                if k.name in have or k.cfg.defines or k.cfg.flags or k.pre:
+                    continue
+                if k.name.endswith('_f') and k.name.split('_')[1] in ('conv', 'diag', 'cols', 'elems'):
+                    have.add(k.name)
+                    cs.append(pair_case(k, 'C02', 'CXX98@gccview', ('GLM_FORCE_CXX98',), None))
+    ex = extra_corpus(tier)
+    for cname, defines, std in CONFIGS:
+        if 'QUAT_DATA_WXYZ' in ' '.join(defines):
+            continue
+        if tier == 'quick' and cname not in EXTRA_CONFIGS_QUICK:
+            continue
+        for k, origin in ex:
+            cs.append(pair_case(k, origin, cname, tuple(k.cfg.defines) + tuple(defines), std))
     cs += canaries()
     return cs
 
